@@ -97,9 +97,13 @@ def theorem_forms(ctx, res):
         t = G.gen_table(rng, ncols=nc, constraints=False, name=rng.choice(G.TABLE_NAMES + ["order", "Type", "COMMENT", "sequence", "index"]),
                         kw_names=(i % 3 == 0), kw_refs=(i % 2 == 0))
         if i % 9 == 0:                     # keyword names in other letter cases, and the rejected ones (counted as not_wf)
+            pool = ["COMMENT", "Order", "DEFAULT", "references", "Update", "unique", "check", "KEY", "with"]
+            rng.shuffle(pool)
+            taken = {c["name"].lower() for c in t["cols"]}
             for c in t["cols"]:
-                if rng.random() < 0.5:
-                    c["name"] = rng.choice(["COMMENT", "Order", "DEFAULT", "references", "Update", "unique", "check", "KEY", "with"])
+                if rng.random() < 0.5 and pool and pool[-1].lower() not in taken:       # column names stay distinct
+                    c["name"] = pool.pop()
+                    taken.add(c["name"].lower())
         if i % 7 == 0:
             for c in t["cols"]:            # stress: options repeated / in long chains, several references
                 extra = [G.gen_column(rng, "z")["opts"] for _ in range(2)]
